@@ -19,7 +19,7 @@ Alphabets ==
                <<35>>, <<63>>, <<99,104,101,99,107,115,117,109>>, <<97,58,48,65>>, <<44>> >>,
    \*        "maven" "pypi" "NuGet" / @ "A_" "-." a ?k=v #s
    typed |-> << <<109,97,118,101,110>>, <<112,121,112,105>>, <<78,117,71,101,116>>, <<47>>, <<64>>,
-                <<65,95>>, <<45,46>>, <<97>>, <<63,107,61,118>>, <<35,115>>, <<453>>, <<110,112,109>> >>,
+                <<65,95>>, <<45,46>>, <<97>>, <<63,107,61,118>>, <<35,115>>, <<453>>, <<110,112,109>>, <<46,47>>, <<46,46,47>> >>,
    \* pieces of a namespace / subpath, each followed by '/':  a  (empty)  .  ..  %2e  %2E  .%2e  %2F  %2f  %5C  ...  %2e%2E
    nsseg |-> Pieces, subseg |-> Pieces,
    \* whole qualifiers: ka=1& k_=2& kb=3& K_=4& k1=5& KA=6&
